@@ -2,6 +2,7 @@ package builder
 
 import (
 	"go/types"
+	"sort"
 
 	"github.com/dave/jennifer/jen"
 	"github.com/jmattheis/goverter/config"
@@ -135,6 +136,16 @@ func (ctx *MethodContext) DefinedEnumFields(target *xtype.Type) map[string]struc
 		f[name] = struct{}{}
 	}
 	return f
+}
+
+// sortedKeys returns the keys in a stable order, so that diagnostics do not depend on map iteration.
+func sortedKeys(m map[string]struct{}) []string {
+	keys := make([]string, 0, len(m))
+	for key := range m {
+		keys = append(keys, key)
+	}
+	sort.Strings(keys)
+	return keys
 }
 
 var (
